@@ -21,7 +21,7 @@ META = {
     "id": "C16",
     "technique": "Coq proof (buzzer device model: induction over call sequences and loop counters; melody tables: reflection over translator-generated tables against a pinned score) + extracted-model correspondence with the emitted C++ executed under the mock Arduino core + property oracle on the firmware trace",
     "level_text": "Theorems C16_* (coq/Props/C16.v) hold for all call sequences and all rational arguments of a Gallina model written line by line from the five buzzer emitter branches; the emitter's melody table and the parser's name set are regenerated from the source on every run and proved equal to a pinned score; the model is run against the real parser+emitter output (compiled, executed on the mock core) on exhaustive boundary grids, exhaustive pairs of boundary calls, seeded random sequences with literal and run-time arguments, bodies repeated over passes of loop() and of a for loop, two interleaved buzzers, and arguments computed from the buzzer's own getters; the thorough tier re-runs a sample under ASan+UBSan.",
-    "level_note": "Trusted: Coq kernel, translator harness/gen/melodies.py, extraction, OCaml driver, mock Arduino core (tone/noTone/delay/Serial/String(float)), g++. C++ float is modelled as exact rational; cases on which float32 and exact arithmetic round an integer output differently are not generated (measured). One known finding delimits the guard: sweep(steps<=0) plays one tone. Four former findings are repaired in the project (kind=fixed in known_findings.d/C16.json: beep(times<=0) left a running tone, negative run-time durations wrapped, frequencies in (0, 0.5) became tone(pin, 0), sweep durations >= 2^24 ms were rounded up by a float conversion); their regions are generated and judged like any other, and their witnesses are replayed first on every run - a witness that fails again is a VIOLATION.",
+    "level_note": "Trusted: Coq kernel, translator harness/gen/melodies.py, extraction, OCaml driver, mock Arduino core (tone/noTone/delay/Serial/String(float)), g++. C++ float is modelled as exact rational; cases on which float32 and exact arithmetic round an integer output differently are not generated (measured). No known finding is left. Five former findings are repaired in the project (kind=fixed in known_findings.d/C16.json: beep(times<=0) left a running tone, negative run-time durations wrapped, frequencies in (0, 0.5) became tone(pin, 0), sweep durations >= 2^24 ms were rounded up by a float conversion, sweep(steps<=0) played one tone); their regions are generated and judged like any other, and their witnesses are replayed first on every run - a witness that fails again is a VIOLATION.",
     "design_ref": "DESIGN.md section 4 C16",
 }
 
@@ -116,7 +116,7 @@ def numeric_sites(case, spec, N, tones=None):
                 last = t
         elif k == "sweep":
             s, e = clamp(N(qfreq(c["s"]))), clamp(N(qfreq(c["e"])))
-            n = max(1, trunc(qint(c["steps"] or [DEF["steps"], False])))
+            n = max(0, trunc(qint(c["steps"] or [DEF["steps"], False])))
             for i in range(n):
                 p = N(1) if n == 1 else N(i) / (N(n) - N(1))
                 f = clamph(s + (e - s) * p)
@@ -476,7 +476,7 @@ def beep_pattern(pin, t, on, off, n):
     return out
 
 
-def oracle(ctx, case, segs, spec, strict_steps=False):
+def oracle(ctx, case, segs, spec):
     """the C16 clauses, evaluated on the firmware trace of one case (segs from fw_segments)"""
     if case.get("kind") == "feedback":
         case = resolve_from_trace(case, segs)
@@ -546,26 +546,24 @@ def oracle(ctx, case, segs, spec, strict_steps=False):
         if k == "sweep":
             steps = trunc(qint(c["steps"] or A(DEF["steps"])))
             whole_steps = qint(c["steps"] or A(DEF["steps"])).denominator == 1
-            n = max(1, steps)
+            n = max(0, steps)          # "plays `steps` tones": none for steps <= 0
             s, e = max(Fr(0), qfreq(c["s"])), max(Fr(0), qfreq(c["e"]))
             total = math.floor(qdur(c["d"]))
             if s <= e and any(a > b for a, b in zip(tones, tones[1:])):
                 bad("sweep-monotone", "rising sweep is not monotone", "non-decreasing", tones, j)
             if s >= e and any(a < b for a, b in zip(tones, tones[1:])):
                 bad("sweep-monotone", "falling sweep is not monotone", "non-increasing", tones, j)
-            if steps >= 1:
-                # steps < 1 is the known finding F-C16-sweep-steps-clamped: count/ends are not judged there
-                if whole_steps and len(tones) > n:
-                    bad("sweep-count", "sweep plays more tones than steps", f"<= {n}", tones, j)
-                if audible(e) and (not tones or tones[-1] != rnd(e)):
-                    bad("sweep-end", "sweep does not end on the end frequency", rnd(e), tones, j)
-                if audible(s) and audible(e):
-                    if whole_steps and len(tones) != n:
-                        bad("sweep-count", "sweep does not play `steps` tones", n, tones, j)
-                    if n > 1 and tones and tones[0] != rnd(s):
-                        bad("sweep-start", "sweep does not start on the start frequency", rnd(s), tones, j)
-            elif strict_steps and len(tones) != max(0, steps):
-                bad("sweep-count", "sweep does not play `steps` tones", max(0, steps), tones, j)
+            # every count is judged, steps <= 0 included (the former finding F-C16-sweep-steps-clamped is repaired):
+            # a sweep of no steps plays no tone, so it has no end frequency to end on
+            if whole_steps and len(tones) > n:
+                bad("sweep-count", "sweep plays more tones than steps", f"<= {n}", tones, j)
+            if n >= 1 and audible(e) and (not tones or tones[-1] != rnd(e)):
+                bad("sweep-end", "sweep does not end on the end frequency", rnd(e), tones, j)
+            if audible(s) and audible(e):
+                if whole_steps and len(tones) != n:
+                    bad("sweep-count", "sweep does not play `steps` tones", n, tones, j)
+                if n > 1 and tones and tones[0] != rnd(s):
+                    bad("sweep-start", "sweep does not start on the start frequency", rnd(s), tones, j)
             if sum(delays) > max(total, 0):
                 bad("sweep-duration", "sweep delays exceed the given duration", f"<= {total}", delays, j)
         if k == "melody":
@@ -638,8 +636,7 @@ def oracle(ctx, case, segs, spec, strict_steps=False):
 def in_guard(case):
     """No call sequence is excluded any more: beep(times < 1) after an untimed play_tone and negative durations
     (the former findings F-C16-beep-zero-keeps-tone, F-C16-negative-runtime-duration) are repaired, so they are
-    generated and judged.  (The one remaining finding, F-C16-sweep-steps-clamped, is a clause the oracle does not
-    judge for steps < 1; those calls are generated and compared with the model.)"""
+    generated and judged; so are sweeps of steps < 1 (the former finding F-C16-sweep-steps-clamped)."""
     return True
 
 
@@ -708,7 +705,7 @@ def random_call(rng):
         c = beep(fq() if rng.random() < 0.7 else None, du() if rng.random() < 0.8 else None,
                  du() if rng.random() < 0.8 else None, rng.choice(TIMES + [2, 2.5, 4, -1.5, 1.5, 3.5, 0.75]) if rng.random() < 0.85 else None)
     elif k == "sweep":
-        c = sweep(fq(), fq(), du(), rng.choice(STEPS + [3, 9, 4, 7, 2.5, 1.5, 3.5]) if rng.random() < 0.85 else None)
+        c = sweep(fq(), fq(), du(), rng.choice(STEPS + [3, 9, 4, 7, 2.5, 1.5, 3.5, -3, 0.5, -0.5]) if rng.random() < 0.85 else None)
     else:
         nm = rng.choice(SEVEN)
         nm = rng.choice([nm, nm, nm.upper(), nm.capitalize()])
@@ -783,6 +780,14 @@ def build_cases(ctx):
             add("subhalf", [route(play(f), rt), route(play(f, 5), rt), route(beep(f, 1, 1, 2), rt), route(beep(None, 1, 1, 1), rt),
                             route(sweep(f, 0, 10, 4), rt), route(sweep(0, f, 10, 3), rt), route(sweep(f, 2, 10, 5), rt)],
                 DEFAULTS[i % len(DEFAULTS)], style=i)
+    # (9) the region of the repaired finding F-C16-sweep-steps-clamped: a sweep of no steps (count <= 0, or a fraction
+    #     truncating to 0) after an untimed tone / on a silent pin, literal and run-time, then a beep repeating the last
+    #     frequency (which such a sweep must not have changed)
+    for i, n in enumerate([0, -1, -3, 0.5, -0.5, 0.75, 1, -32768]):
+        for j, first in enumerate([play(660), play(440.5), stop(), play(330, 5)]):
+            for rt in (False, True):
+                add("nosteps", [route(first, rt and j % 2 == 0), route(sweep(440, 880, [50, 0, 7, -1][(i + j) % 4], n), rt),
+                                route(beep(None, 1, 1, 1), not rt), route(sweep(880, 440.5, 50, n), not rt)], None, style=i + j)
     # (6) state feedback: frequency-type arguments written as expressions over the buzzer's own getters
     #     (evaluated by the firmware when the call is made); values resolved by resolve_feedback
     seeds = [play(440), play(440.5), play(220.25), play(65535), play(1), play(440, 50), beep(880, 1, 1, 2),
@@ -1033,7 +1038,7 @@ def replay_findings(ctx, spec, fixed):
         probe = C.Ctx("C16", ctx.tier, ctx.seed)
         probe.findings = []
         try:
-            oracle(probe, case, segs, spec, strict_steps=True)
+            oracle(probe, case, segs, spec)
         except Exception as exc:
             if fixed:
                 ctx.fail(f"{f.get('fixed', 'fixed: ' + f['id'])} - the oracle cannot read the witness trace ({type(exc).__name__})",
@@ -1172,13 +1177,13 @@ def run(ctx: C.Ctx):
     ctx.coverage.update({
         "evaluations": len(cases) + n_names,
         "distinct_nontrivial": distinct,
-        "rule": "call sequences on one buzzer: (1) every point of the boundary grids (play_tone f x d, beep f x (on,off) x times, sweep s x e x (d,steps), melody x tempo; quick tier cycles the inner product, thorough takes it in full) chained four per case, literal and run-time (analog_read-routed) arguments alternating; (2) all ordered pairs over a 29-call boundary alphabet in four literal/run-time routings; (3) seeded random sequences of length <= 8 with per-argument routing, omitted defaults, keyword/positional spellings and case variants of melody names; (4) a body of 1-4 calls executed for 2-3 passes, inside `while True:` (loop(), state carried by the globals) inside `for k in range(P):` in setup(), or inside a user-defined function called P times; (5) two buzzers on different pins with randomly interleaved calls (each compared with its own model run; events on a foreign pin are failures). (6) state feedback: a seed call, then 1-3 calls whose frequency / start / end / tempo argument is `get_last_frequency() * a + b` or `get_frequency() * a + b` of the same buzzer (the model evaluates the expression in its own state; the oracle takes the getter value the firmware printed just before the call). (7) sweep durations around and above 2^24 ms; (8) the regions of the repaired findings: untimed tone then beep with count < 1, negative durations at every duration site, frequencies around 1/2. The witnesses of the repaired findings (known_findings.d/C16.json, kind fixed) are replayed before everything else. Thorough tier: a seventh of the cases re-run under clang++ ASan+UBSan. Getters are printed before the first and after every call. Non-trivial = contains a call other than stop; distinct by (default, calls).",
+        "rule": "call sequences on one buzzer: (1) every point of the boundary grids (play_tone f x d, beep f x (on,off) x times, sweep s x e x (d,steps), melody x tempo; quick tier cycles the inner product, thorough takes it in full) chained four per case, literal and run-time (analog_read-routed) arguments alternating; (2) all ordered pairs over a 29-call boundary alphabet in four literal/run-time routings; (3) seeded random sequences of length <= 8 with per-argument routing, omitted defaults, keyword/positional spellings and case variants of melody names; (4) a body of 1-4 calls executed for 2-3 passes, inside `while True:` (loop(), state carried by the globals) inside `for k in range(P):` in setup(), or inside a user-defined function called P times; (5) two buzzers on different pins with randomly interleaved calls (each compared with its own model run; events on a foreign pin are failures). (6) state feedback: a seed call, then 1-3 calls whose frequency / start / end / tempo argument is `get_last_frequency() * a + b` or `get_frequency() * a + b` of the same buzzer (the model evaluates the expression in its own state; the oracle takes the getter value the firmware printed just before the call). (7) sweep durations around and above 2^24 ms; (8) the regions of the repaired findings: untimed tone then beep with count < 1, negative durations at every duration site, frequencies around 1/2; (9) sweeps of no steps (steps in 0, -1, -3, 0.5, -0.5, 0.75, -32768, and 1 beside them) after an untimed tone, a stop and a timed tone, followed by a beep repeating the last frequency. The witnesses of the repaired findings (known_findings.d/C16.json, kind fixed) are replayed before everything else. Thorough tier: a seventh of the cases re-run under clang++ ASan+UBSan. Getters are printed before the first and after every call. Non-trivial = contains a call other than stop; distinct by (default, calls).",
         "samples": [cases[0], cases[len(cases) // 2], cases[-1]],
         "distribution": {**dist, "cases": len(cases), "calls_compared": n_calls, "sketches": n_sketches,
                          "cases_clean": n_ok, "cases_rerun_under_sanitizers": n_san, "outside_guard_not_generated": n_out_guard, "feedback_cases_not_exact_dropped": n_feedback_dropped, "fixed_witnesses_replayed": n_fixed,
                          "float32_vs_exact_dropped": n_inexact, "melody_name_candidates": n_names, "melody_names_accepted": n_acc},
         "exhaustive": False,
-        "guard": "sweep tone count / first / last are judged only for steps >= 1 (F-C16-sweep-steps-clamped, the one remaining finding; the calls are still generated and compared with the model); integer outputs on which float32 and exact-rational arithmetic differ are not generated (count in distribution.float32_vs_exact_dropped).  Nothing else is excluded: beep(times < 1) after an untimed tone, negative durations (literal and run-time), frequencies in (0, 0.5) and sweep durations >= 2^24 ms - the regions of the four repaired findings - are generated (kinds beepzero, negdur, subhalf, bigdur, plus the grids, pairs and random sequences) and judged by every clause",
+        "guard": "integer outputs on which float32 and exact-rational arithmetic differ are not generated (count in distribution.float32_vs_exact_dropped).  Nothing else is excluded: beep(times < 1) after an untimed tone, negative durations (literal and run-time), frequencies in (0, 0.5), sweep durations >= 2^24 ms and sweeps of steps < 1 - the regions of the five repaired findings - are generated (kinds beepzero, negdur, subhalf, bigdur, nosteps, plus the grids, pairs and random sequences) and judged by every clause (a sweep of no steps: no tone, so no end frequency to end on)",
         "unmodelled": ["C++ float rounding (modelled as exact rationals; measured by the float32 filter and the correspondence)",
                        "unsigned int / int / unsigned long overflow (tone frequency >= 2^16 on AVR, counts >= 2^15)",
                        "static_cast<unsigned long> of a duration above ULONG_MAX (durations are clamped at zero from below only)",
